@@ -232,6 +232,24 @@ def run_dag(scn, *, hooks_factory=None, keep=False, extra_hooks=None, before_run
             ledger.close_fds()
             del ledger.entries[:]
         out.cached_before = cached
+        if scn.get('prelude_abort') and backend in ('fork', 'spawn'):
+            # history: an earlier run_tasks call in this process was aborted by LabError (continue_on_failure=False)
+            # while another task was still executing
+            from . import tasks_core
+            write_plan(ctl, 0, {'pa_fail': {'act': 'raise:ValueError'}, 'pa_slow': {'sleep': 0.35}})
+            labp = labtech.Lab(storage=None, runner_backend=make_backend(backend), max_workers=W_arg,
+                               continue_on_failure=False, context=ctx)
+            try:
+                labp.run_tasks([tasks_core.NN(name='pa_slow'), tasks_core.NN(name='pa_fail')],
+                               disable_progress=True, disable_top=True)
+                out.prelude = 'returned'
+            except labtech.exceptions.LabError:
+                out.prelude = 'LabError'
+            except BaseException as ex:   # noqa
+                out.prelude = type(ex).__name__
+            del labp
+            ledger.close_fds()
+            del ledger.entries[:]
         pre_events = len(events.read_events(ctl))
         # ---- main run (generation 1)
         default = {}
@@ -268,7 +286,7 @@ def run_dag(scn, *, hooks_factory=None, keep=False, extra_hooks=None, before_run
                 _walk(t)
         out.built = built
         out.req = req
-        deaths = [n for n, a in failing.items() if a in ('kill', 'exit')]
+        deaths = [n for n, a in failing.items() if a in ('kill', 'exit', 'exit0')]
         inner = make_backend(backend, scn.get('sched_seed', 0), deaths=deaths,
                              batch_bias=scn.get('batch_bias', 0.5))
         hooks = None
@@ -318,6 +336,7 @@ def run_dag(scn, *, hooks_factory=None, keep=False, extra_hooks=None, before_run
         except HarnessAbort as ex:
             out.exc = ex
             out.aborted = str(ex)
+            out.alive_at_abort = [e['name'] for e in ledger.alive()]
         except BaseException as ex:   # noqa
             out.exc = ex
         else:
